@@ -178,6 +178,16 @@ class ValueAxis(Saveable):
         # nearest smaller neighbor index
         nsni = int(numpy.floor((val-self.start)/self.step))
 
+        # the quotient above is rounded: make sure that the index found is
+        # the one of the lower neighbor (a point of the axis has to be
+        # located at its own index)
+        if (nsni >= -1) and (nsni+1 < self.length) \
+            and (val >= self.data[nsni+1]):
+            nsni += 1
+        elif (nsni >= 1) and (nsni < self.length) \
+            and (val < self.data[nsni]):
+            nsni -= 1
+
         # if n0 is within bounds calculate distance
         # from the lower neighbor
         if (nsni >= 0) and (nsni < self.length):
